@@ -15,6 +15,9 @@ META = dict(
          "inside a write; distinct by (type, shape, plan)",
     trusted_base=[
         "Coq 8.16.1 kernel (coqc), vm_compute for evaluating the model on cases",
+        "translator gen/py2v.py: Gen_effects.v (control skeletons of the appending functions, regenerated "
+        "from the source on every run) and the reading of its vocabulary calls as effect kinds "
+        "(EffectOrder.v / EffectOrderR.v, Skel.runs)",
         "hand-written model coq/ArrayModel.v (iterappend incl. its except-branch and the "
         "first-chunk path of empty arrays), tied by in-Coq differential evaluation",
         "the kernel's RLIMIT_FSIZE behaviour (partial write, then EFBIG) as the source of "
